@@ -92,4 +92,33 @@ theorem attrLoop_enc {σ α : Type} (loop : Nat → σ → Bytes → Outcome (σ
         hone a (by simp) st st1 _ hs, ok_bind]
       exact ih (fun b hb => hone b (by simp [hb])) st1 hst
 
+theorem mapOpt_length {α β : Type} (f : α → Option β) (xs : List α) (ys : List β) (h : mapOpt f xs = some ys) : xs.length = ys.length := by
+  induction xs generalizing ys with
+  | nil => simp [mapOpt] at h; subst h; rfl
+  | cons x xs ih =>
+    simp only [mapOpt] at h
+    cases hx : f x with
+    | none => simp [hx] at h
+    | some b =>
+      cases hr : mapOpt f xs with
+      | none => simp [hx, hr] at h
+      | some bs => simp [hx, hr] at h; subst h; simp [ih bs hr]
+
+theorem mapOpt_get {α β : Type} (f : α → Option β) (xs : List α) (ys : List β) (h : mapOpt f xs = some ys) (k : Nat) (x : α) (y : β)
+    (hx : xs[k]? = some x) (hy : ys[k]? = some y) : f x = some y := by
+  induction xs generalizing ys k with
+  | nil => simp at hx
+  | cons x' xs ih =>
+    simp only [mapOpt] at h
+    cases hfx : f x' with
+    | none => simp [hfx] at h
+    | some b =>
+      cases hr : mapOpt f xs with
+      | none => simp [hfx, hr] at h
+      | some bs =>
+        simp [hfx, hr] at h; subst h
+        cases k with
+        | zero => simp at hx hy; subst hx; subst hy; exact hfx
+        | succ k => exact ih bs hr k (by simpa using hx) (by simpa using hy)
+
 end ClassRead
